@@ -470,8 +470,9 @@ def r8_strict_text_and_private_tables(ctx):
     ctx.count("dict-cache stores examined", m)
 
 
-from ..through_time import make_rule as _mk_tt
+from ..through_time import make_rule as _mk_tt, make_t2 as _mk_t2
 _through_time = _mk_tt("C06")
+_small_edits = _mk_t2("C06")
 
 RULES = [
     ("C06-R5", r5_stale_shape),
@@ -483,6 +484,7 @@ RULES = [
     ("C06-R6", r6_encoding_identity),
     ("C06-R7", _assigned_values_encoded),
     ("C06-T1", _through_time),
+    ("C06-T2", _small_edits),
     ("C06-R8", r8_strict_text_and_private_tables),
 ]
 
